@@ -272,6 +272,7 @@ def run(c, chk):
 
     # ---- R2.6 ----------------------------------------------------------------
     loop_progress(c, chk, reach)
+    reader_loops(c, chk)
 
     # ---- R2.7: the parse loop never releases the same object twice / keeps a released one ----
     chk.rule('R2.7', 'the parser loop never keeps a pointer it has released for a later iteration (no double free / use after free on input)')
@@ -715,6 +716,57 @@ def loop_progress(c, chk, reach):
                 chk.fail('R2.6', 'loop:%s:%s' % (f.name, loop_signature(f, h, body)), c.where(f, f.blocks[h].first_line()),
                          'loop in %s() has no recognised progress step (token consumption, induction variable, list advance)' % f.name)
     chk.floor('R2.6 loops on the parse path', nloops, 14)
+
+
+def reader_loops(c, chk):
+    """R2.9: the scanner's reader asks the stream for more and may get nothing.  A loop around such a request repeats a
+    request that brought no data only when the failure was a transient one (errno == EINTR observed in that iteration);
+    any other reason (a stream that is a directory, a write-only stream, a closed descriptor) persists, and repeating
+    the request on it never ends"""
+    chk.rule('R2.9', 'a loop around fread() repeats a request that returned no data only after it has seen errno == EINTR in that iteration')
+    EINTR = 4
+    n = 0
+    for f in c.lexer.funcs.values():
+        loops = _cfg.natural_loops(f)
+        for h, body in sorted(loops.items()):
+            calls = [i for b in body for i in f.blocks[b].instrs if i.op == 'call' and i.callee_name() == 'fread']
+            if not calls:
+                continue
+            ex = sym.Explorer(c.modules, max_visits=2, mod_sets=c.mod_sets, max_paths=20000, inline=set())
+            bad = None
+            for p in ex.explore(f, start=h, stop=[h]):
+                if p.end != 'stop':
+                    continue
+                fr = [e for e in p.events if e.kind == 'call' and e.name == 'fread']
+                if not fr:
+                    continue
+                res = fr[-1].res
+                nodata = False
+                for cn, t, _ in p.assume:
+                    if cn[0] == 'icmp' and cn[1] in ('eq', 'ne') and sym.C0 in (cn[2], cn[3]) and sym.mentions(cn, lambda v: v == res) and ((cn[1] == 'eq') == t):
+                        nodata = True
+                if not nodata:
+                    continue
+                n += 1
+                transient = False
+                for cn, t, _ in p.assume:
+                    if cn[0] == 'icmp' and cn[1] in ('eq', 'ne') and sym.mentions(cn, lambda v: v[0] == 'ld' and v[1] == ('errno',)) \
+                            and ('c', EINTR) in (cn[2], cn[3]) and ((cn[1] == 'eq') == t):
+                        transient = True
+                if not transient:
+                    bad = bad or p
+            if bad is not None:
+                chk.fail('R2.9', 'reader-retry:%s' % f.name, c.where(calls[0]),
+                         '%s() repeats an fread() that returned nothing without having seen errno == EINTR (%s): on a stream whose error persists '
+                         '(a directory, a write-only stream) the scanner asks again forever and the parse never returns' % (f.name, fp_cond_text(bad)))
+            else:
+                chk.ok('R2.9', '%s loop@%s' % (f.name, c.where(f, f.blocks[h].first_line())), 'an empty read is retried only under errno == EINTR', sample=True)
+    chk.floor('R2.9 retrying iterations of the reader', n, 1)
+
+
+def fp_cond_text(p):
+    from .. import failpaths as fp
+    return fp.cond_text(p, 4)
 
 
 def must_call_before_return(g, callee):
